@@ -94,8 +94,10 @@ int32_t psBase64decode(const unsigned char *in, psSize_t len,
         if (c == 254)
         {
             c = 0;
-            /* prevent g < 0 which would potentially allow an overflow later */
-            if (--g < 0)
+            /* At most two '=' per quantum. With a third one the quantum holds
+               no complete byte, yet one byte would still be stored below
+               without being covered by the outlen check (g would be 0). */
+            if (--g < 1)
             {
                 psTraceCrypto("Negative g failure in psBase64decode\n");
                 return PS_LIMIT_FAIL;
